@@ -31,7 +31,7 @@ FLAG_NAMES = {
     18: "t_meshset_need", 19: "t_meshset_sub", 20: "t_updmesh_need", 21: "t_bcinit", 22: "t_dirichlet", 23: "t_lagrange",
     24: "t_newton_need", 25: "t_pf_need_d", 26: "t_pf_need_u", 27: "t_pf_setiter_d", 28: "t_pf_setiter_u",
     29: "t_pf_dmg_inval_u", 30: "t_pf_el_inval_d", 31: "t_csr_key_groups", 32: "t_csr_key_ndof", 33: "t_mass_key_group",
-    34: "t_model_cache_refresh", 35: "t_meshset_initsols"}
+    34: "t_model_cache_refresh", 35: "t_meshset_initsols", 36: "t_param_set_unconditional"}
 
 KEYS = {
     1: "no-need-update:_Parameter.__set__", 2: "no-notify:_IModel.Need_Update", 3: "no-need-update:_Simu._Update(model)",
@@ -47,7 +47,7 @@ KEYS = {
     27: "pf-flag:Set_Iter(damage)", 28: "pf-flag:Set_Iter(displacement)", 29: "pf-flag:damage-solve-keeps-Ku",
     30: "pf-flag:elastic-solve-keeps-Kd", 31: "cache-key:csr-map-without-groups", 32: "cache-key:csr-map-without-Ndof",
     33: "cache-key:mass-without-group", 34: "model-derived-cache-read-before-lazy-update",
-    35: "solution-state-kept:simu.mesh-setter"}
+    35: "solution-state-kept:simu.mesh-setter", 36: "no-need-update:same-array-reassigned:_Parameter.__set__"}
 
 # ---- real-code replays of the model witnesses (same sequences as `witness` in C14_Cache.v) ------------
 NS = {"op": "newsim", "m": 0}
@@ -103,7 +103,18 @@ REAL_WITNESS[35] = [{"type": "Thermal", "ops": TH_PRE + [SOLVE, SOLVE, nm, {"op"
 REAL_WITNESS[5] = [{"type": "HyperElastic", "ops": HYP_PRE + [SOLVE, mv("CoordSet")]},
                    {"type": "HyperElastic", "ops": HYP_PRE + [SOLVE, {"op": "param", "name": "K", "value": 3.1e4}, mv("CoordSet")]},
                    {"type": "HyperElastic", "ops": HYP_PRE + [SOLVE, {"op": "rho", "i": 0, "value": 650.0}, mv("CoordSet")]}]
-REAL_WITNESS[34] = [{"type": "PhaseField", "opts": {"split": sp},
+IE_PRE = [NS, DIR2, {"op": "dirichlet", "i": 0, "where": "right", "values": [0.004, 0.0]}, SOLVE, {"op": "saveiter", "i": 0}]
+IE_RELOAD = [DIR2, {"op": "dirichlet", "i": 0, "where": "right", "values": [0.002, 0.0]}]
+REAL_WITNESS[35] += [
+    {"type": "InElastic", "key": "internal-state-kept:InElastic:simu.mesh-setter", "ops": IE_PRE + [SAME_NN, {"op": "setmesh", "i": 0, "m": 1}] + IE_RELOAD},
+    {"type": "InElastic", "key": "internal-state-kept:InElastic:simu.mesh-setter", "ops": IE_PRE + [NEWMESH, {"op": "setmesh", "i": 0, "m": 1}] + IE_RELOAD + [SOLVE]},
+    {"type": "PhaseField", "key": "history-kept:PhaseField:simu.mesh-setter", "opts": {"split": "Amor"},
+     "ops": [NS, DIR2, {"op": "dirichlet", "i": 0, "where": "right", "values": [0.01, 0.0]}, SOLVE, {"op": "saveiter", "i": 0}, SOLVE, {"op": "saveiter", "i": 0},
+             SAME_NN, {"op": "setmesh", "i": 0, "m": 1}, DIR2, PULL, SOLVE]}]
+REAL_WITNESS[36] = [{"type": "Elastic", "ops": [NS, {"op": "param_arr", "name": "E", "base": 1.0e5, "amp": 0.3, "freq": 1.0}, GK,
+                                                  {"op": "param_arr", "name": "E", "base": 2.0e5, "amp": 0.2, "freq": 2.0, "same": True}]}]
+REAL_WITNESS[34] = [{"type": "InElastic", "key": "model-derived-cache:Behavior.__eigen-built-once",
+                     "ops": IE_PRE + [{"op": "param", "sub": True, "name": "v", "value": 0.1}]}] + [{"type": "PhaseField", "opts": {"split": sp},
                      "ops": PF_PRE + [SOLVE, {"op": "param", "sub": True, "name": "v", "value": 0.1}]} for sp in ("He", "Zhang", "Stress", "AnisotStress")]
 for _a, _b in ((2, 1), (3, 1), (6, 1), (14, 10), (15, 11), (16, 12), (17, 13), (26, 25), (28, 27)):
     REAL_WITNESS[_a] = REAL_WITNESS[_b]
@@ -160,7 +171,8 @@ def replay_snippet(case, expflags=None, flagsmatter=False):
 
 
 # ---- op translation to Coq ----------------------------------------------------------------------------------
-KIND = {"Elastic": "KLin", "Thermal": "KLin", "Beam": "KLin", "PhaseField": "KPF", "HyperElastic": "KNonLin"}
+KIND = {"Elastic": "KLin", "Thermal": "KLin", "Beam": "KLin", "PhaseField": "KPF", "HyperElastic": "KNonLin",
+        "WeakForms": "KLin", "InElastic": "KNonLin"}
 MOP = {"Translate": "MTranslate", "Rotate": "MRotate", "Symmetry": "MSymmetry", "CoordSet": "MCoordSet", "Perturb": "MCoordSet"}
 
 
@@ -173,6 +185,8 @@ def coq_op(typ, op):
         return "ONewMesh"
     if k == "param":
         return "OParam %s" % b(op.get("sub", False))
+    if k == "param_arr":
+        return "OParamArr %s %s" % (b(op.get("sub", False)), b(op.get("same", False)))
     if k == "move":
         return "OMeshMove %d %s" % (op["m"], MOP[op["kind"]])
     if k == "georead":
@@ -253,9 +267,11 @@ def gen_case(rng, typ, maxlen):
     if typ == "PhaseField":
         # every energy split, the ones reading derived quantities cached on the material (He, Zhang, Stress, ...) included
         opts["split"] = rng.choice(["Bourdin", "Amor", "Miehe", "He", "He", "He", "He", "Stress", "Zhang", "AnisotStrain", "AnisotStress"])
-    if typ in ("Elastic", "Thermal") and rng.random() < 0.35:
+    arrays = typ == "Elastic" and rng.random() < 0.3   # heterogeneous (one value per element) Young modulus
+    has_arr = [False]
+    if typ in ("Elastic", "Thermal") and not arrays and rng.random() < 0.35:
         opts["scale"] = rng.choice([1.0e-3, 1.0e-6, 5.0e-9, 2.0e-9])   # millimetre .. nanometre sized meshes (SI units)
-    nsims = 2 if (typ in ("Elastic", "Thermal", "PhaseField") and rng.random() < 0.3) else 1
+    nsims = 2 if (typ in ("Elastic", "Thermal", "PhaseField") and rng.random() < 0.3 and not arrays) else 1
     nmesh = 1
     if nsims == 2 and rng.random() < 0.4:
         ops.append({"op": "newmesh", "nx": 3, "ny": 2, "lx": 1.25, "ly": 1.0})
@@ -265,7 +281,7 @@ def gen_case(rng, typ, maxlen):
         m = 0 if i == 0 else rng.randrange(nmesh)
         ops.append({"op": "newsim", "m": m})
         st.append({"mesh": m, "dir": False, "solved": False, "iters": [], "dyn": False, "lag": False})
-    dofv = {"Thermal": [1.0], "Beam": [0.0, 0.0, 0.0]}.get(typ, [0.0, 0.0])
+    dofv = {"Thermal": [1.0], "WeakForms": [1.0], "Beam": [0.0, 0.0, 0.0]}.get(typ, [0.0, 0.0])
     pv = lambda lo, hi: round(rng.uniform(lo, hi), 3)
 
     def ensure_dir(i):
@@ -275,6 +291,8 @@ def gen_case(rng, typ, maxlen):
                 ops.append({"op": "dirichlet", "i": i, "where": "right", "values": [pv(0.0005, 0.003), 0.0]})
             if typ == "HyperElastic":
                 ops.append({"op": "neumann", "i": i, "where": "right", "values": [pv(1, 5), 0.0]})
+            if typ == "InElastic":
+                ops.append({"op": "dirichlet", "i": i, "where": "right", "values": [pv(0.0005, 0.004), 0.0]})
             st[i]["dir"] = True
         if typ == "Beam" and not st[i]["lag"]:
             # the two beams only share a duplicated node: without the connection the system is singular
@@ -296,9 +314,13 @@ def gen_case(rng, typ, maxlen):
                 s["solved"] = True
         choices = ["param", "param", "move", "move", "getk", "solve", "solve", "bc", "rho", "georead", "saveiter", "setiter", "bcinit"]
         if typ == "Elastic":
-            choices += ["ray", "algo", "setmesh"]
+            choices += ["ray", "algo"] + ([] if arrays else ["setmesh"])
         if typ in ("Thermal", "HyperElastic"):
             choices += ["algo", "setmesh"]
+        if typ == "WeakForms":
+            choices += ["algo"]
+        if typ == "InElastic":
+            choices += ["setmesh"]
         if typ == "PhaseField":
             choices += ["setmesh", "getkd"]
         if typ == "Beam":
@@ -307,7 +329,21 @@ def gen_case(rng, typ, maxlen):
         if len(ops) >= n:
             c = rng.choice(["param", "param", "move"])
         if c == "param":
-            if typ == "Elastic":
+            if typ == "Elastic" and arrays and rng.random() < 0.7:
+                same = has_arr[0] and rng.random() < 0.5
+                ops.append({"op": "param_arr", "name": "E", "base": pv(5e4, 3e5), "amp": pv(0.05, 0.4), "freq": pv(0.5, 3.0), "same": same})
+                has_arr[0] = True
+            elif typ == "WeakForms":
+                ops.append({"op": "param", "name": "thickness", "value": pv(0.5, 3.0)})
+            elif typ == "InElastic":
+                if rng.random() < 0.7:
+                    nm = rng.choice(["E", "v", "v"])
+                    ops.append({"op": "param", "sub": True, "name": nm, "value": pv(1e5, 3e5) if nm == "E" else pv(0.1, 0.4)})
+                else:
+                    ops.append({"op": "param", "name": "thickness", "value": pv(0.5, 3.0)})
+            elif typ == "Elastic":
+                if arrays:
+                    has_arr[0] = False
                 nm = rng.choice(["E", "v"])
                 ops.append({"op": "param", "name": nm, "value": pv(1e3, 3e5) if nm == "E" else pv(0.1, 0.4)})
             elif typ == "Thermal":
@@ -335,7 +371,7 @@ def gen_case(rng, typ, maxlen):
                     "CoordSet": [pv(0.6, 1.9), pv(0.6, 1.9)] if typ != "Beam" else [pv(0.8, 1.4)] * 2}[kind]
             ops.append({"op": "move", "m": m, "kind": kind, "args": args})
         elif c == "getk":
-            if typ != "HyperElastic":
+            if typ not in ("HyperElastic", "InElastic"):
                 ops.append({"op": "getk", "i": i})
         elif c == "getkd":
             ops.append({"op": "getk", "i": i, "dmg": True})
@@ -347,7 +383,7 @@ def gen_case(rng, typ, maxlen):
             if rng.random() < 0.5:
                 ensure_dir(i)
             else:
-                if typ == "Thermal":
+                if typ in ("Thermal", "WeakForms"):
                     vals = [pv(1, 9)]
                 elif typ == "Beam":
                     vals = [pv(100, 2000)]
@@ -369,7 +405,7 @@ def gen_case(rng, typ, maxlen):
         elif c == "ray":
             ops.append({"op": "ray", "i": i, "coefM": pv(0, 1), "coefK": pv(0, 1e-3)})
         elif c == "algo":
-            if typ == "Thermal":
+            if typ in ("Thermal", "WeakForms"):
                 a = rng.choice([{"kind": "elliptic"}, {"kind": "parabolic", "dt": pv(0.01, 0.5)}])
             else:
                 a = rng.choice([{"kind": "elliptic"}, {"kind": "hyperbolic", "dt": pv(0.01, 0.1), "scheme": rng.choice(["newmark", "midpoint", "hht"])}])
@@ -421,6 +457,16 @@ def systematic_cases():
             for nm in names:
                 out.append({"type": "PhaseField", "opts": {"split": sp},
                             "ops": PF_PRE + [SOLVE, {"op": "param", "sub": sub, "name": nm, "value": newval[nm]}]})
+    for nm, sub, val in (("E", True, 1.1e5), ("v", True, 0.12), ("thickness", False, 2.0)):
+        out.append({"type": "InElastic", "opts": {}, "ops": IE_PRE + [{"op": "param", "sub": sub, "name": nm, "value": val}]})
+    out.append({"type": "WeakForms", "opts": {}, "ops": [NS, {"op": "dirichlet", "i": 0, "where": "left", "values": [1.0]},
+                {"op": "algo", "i": 0, "kind": "parabolic", "dt": 0.1}, SOLVE, {"op": "param", "name": "thickness", "value": 2.0}]})
+    out.append({"type": "Elastic", "opts": {}, "ops": [NS, DIR2, LOAD, {"op": "param_arr", "name": "E", "base": 1.0e5, "amp": 0.3, "freq": 1.0}, SOLVE,
+                {"op": "param_arr", "name": "E", "base": 2.0e5, "amp": 0.2, "freq": 2.0, "same": True}]})
+    out.append({"type": "Elastic", "opts": {}, "ops": [NS, DIR2, LOAD, {"op": "param_arr", "name": "E", "base": 1.0e5, "amp": 0.3, "freq": 1.0}, SOLVE,
+                {"op": "param_arr", "name": "E", "base": 2.0e5, "amp": 0.2, "freq": 2.0, "same": False}]})
+    for nm in (SAME_NN, NEWMESH):
+        out.append({"type": "InElastic", "opts": {}, "ops": IE_PRE + [nm, {"op": "setmesh", "i": 0, "m": 1}] + IE_RELOAD})
     for typ, names, pre in (("Elastic", ["E", "v"], [NS, DIR2, LOAD, SOLVE]),
                             ("Thermal", ["k", "c"], [NS, {"op": "dirichlet", "i": 0, "where": "left", "values": [1.0]},
                                                      {"op": "algo", "i": 0, "kind": "parabolic", "dt": 0.1}, SOLVE]),
@@ -461,6 +507,15 @@ def systematic_cases():
         for nm in (SAME_NN, SAME_NN_TRI):
             out.append({"type": typ, "opts": {}, "ops": list(pre) + [SOLVE, nm, {"op": "setmesh", "i": 0, "m": 1}]})
     return out
+
+
+# directed probes with their own key: behaviour that is specific to one simulation class (not expressible in the
+# class-independent table); a value mismatch with the fresh simulation is reported under the probe's key
+PROBES = [
+    {"key": "mesh-replacement-not-converted:Beam", "type": "Beam", "opts": {},
+     "what": "simu.mesh = <mesh produced by the mesher> on a Beam simulation (the SEG groups are converted to beam elements only in __init__)",
+     "ops": BEAM_PRE + [SOLVE, {"op": "newmesh", "lx": 1.5}, {"op": "setmesh", "i": 0, "m": 1}] + BEAM_PRE[1:]},
+]
 
 
 def shrink(ctx, case, still_bad):
@@ -576,25 +631,43 @@ def run(ctx):
             src = L.get(name, "?")
             model_w = bool(refuted[n])
             mine = [(c, allres[k]) for k, (j, c) in enumerate(alts) if j == i] if allres is not None else []
-            hit = next(((c, r) for c, r in mine if is_bad(r)), None)
-            if hit is not None:
-                c, r = hit
+            hits, seenk = [], set()
+            for c, r in mine:
+                kk = c.get("key", key)
+                if is_bad(r) and kk not in seenk:
+                    seenk.add(kk)
+                    hits.append((c, r, kk))
+            for c, r, key in hits:
                 detail = r["error"]["what"] if r["error"] else "; ".join(s["detail"] for s in r["sims"] if s["mismatch"])
                 ctx.violation(key, "%s (table entry %s, %s): after %s%s the simulation does not behave like a freshly built one: %s" % (
                     key, name, src, [o["op"] + (":" + o["kind"] if "kind" in o else "") for o in c["ops"]],
                     " (%s)" % c["opts"] if c.get("opts") else "", detail[:300]),
                     {"replay_py": replay_snippet(c), "table_entry": name, "source": src, "model_witness_refutes": model_w,
                      "ops": c["ops"], "opts": c.get("opts", {}), "impl": {"error": r["error"], "sims": r["sims"]}}, found_input=True)
-            else:
+            if not hits:
                 c = witness_cases(i)[0]
                 ctx.violation(key, "%s (table entry %s, %s): the invariant proof no longer goes through for this mutator; the model witness %s, but on the real code the %d witness sequence(s) tried give values identical to a fresh simulation" % (
                     key, name, src, "is stale" if model_w else "is not stale either", len(mine)),
                     {"replay_py": replay_snippet(c), "table_entry": name, "source": src, "obligation": "C14_table_ok", "ops": c["ops"]}, found_input=False)
     elif not r1.ok:
         ctx.violation("proof-broken:C14_fresh.v", "C14_fresh.v no longer checks although every table entry is as required", {"log": r1.log[-3000:]}, found_input=False)
+    # 4b. class-specific probes ------------------------------------------------------------------------------------------------
+    try:
+        pres = run_impl(ctx, [{"type": p_["type"], "opts": p_["opts"], "ops": p_["ops"]} for p_ in PROBES])
+    except RuntimeError as ex:
+        pres = []
+        ctx.obligation("probes", False, str(ex)[-500:])
+    for p_, r in zip(PROBES, pres):
+        bad = is_bad(r)
+        ctx.obligation("probe:" + p_["key"], not bad, "" if not bad else (r["error"]["what"] if r["error"] else "; ".join(s_["detail"] for s_ in r["sims"] if s_["mismatch"]))[:300])
+        ctx.note_case("probe:" + p_["key"])
+        if bad:
+            detail = r["error"]["what"] if r["error"] else "; ".join(s_["detail"] for s_ in r["sims"] if s_["mismatch"])
+            ctx.violation(p_["key"], "%s: does not behave like a freshly built simulation: %s" % (p_["what"], detail[:300]),
+                          {"replay_py": replay_snippet({"type": p_["type"], "opts": p_["opts"], "ops": p_["ops"]}), "ops": p_["ops"]}, found_input=True)
     # 5. correspondence -------------------------------------------------------------------------------------------------------
     ncases = 150 if ctx.tier == "quick" else 1500
-    weights = [("Elastic", 30), ("Thermal", 20), ("PhaseField", 20), ("HyperElastic", 12), ("Beam", 18)]
+    weights = [("Elastic", 28), ("Thermal", 16), ("PhaseField", 18), ("HyperElastic", 10), ("Beam", 14), ("WeakForms", 7), ("InElastic", 7)]
     types = [t for t, w in weights for _ in range(w)]
     cases = [gen_case(ctx.rng, ctx.rng.choice(types), 12) for _ in range(ncases)]
     syst = systematic_cases()
@@ -617,6 +690,8 @@ def run(ctx):
         kinds = sorted(set(o["op"] for o in c["ops"]))
         # (b) flags after every op
         for k, fl in enumerate(r["flags"]):
+            if c["type"] == "InElastic" and c["ops"][k]["op"] != "solve":
+                continue   # the elastic law nested in a Behavior is not observed by the simulation (it reassembles at every Newton iteration)
             stats["flag_steps"] += 1
             if fl != [list(x) for x in p[k][0]]:
                 flag_bad.append((c, k, fl, p[k][0]))
@@ -665,7 +740,14 @@ def run(ctx):
         stats["agree_fresh"], stats["explained_by_failing_entries"], stats["benign_value_coincidence"]) if not unexplained else unexplained[0][2])
     ctx.obligation("corr:harness-errors", not harness_err, harness_err[0][1]["detail"] if harness_err else "")
     seen = set()
-    for c, r, what in unexplained[:6]:
+    picked, pre_seen = [], set()
+    for c, r, what in unexplained:
+        lastk = tuple([o["op"] for o in c["ops"] if o["op"] not in ("newsim", "getk", "solve", "georead", "dirichlet", "neumann")][-2:])
+        if (c["type"], lastk) in pre_seen:
+            continue
+        pre_seen.add((c["type"], lastk))
+        picked.append((c, r, what))
+    for c, r, what in picked[:8]:
         small = shrink(ctx, c, is_bad)
         last = [o["op"] + (":" + o["kind"] if "kind" in o else "") for o in small["ops"] if o["op"] not in ("newsim", "getk", "solve", "georead")][-2:]
         key = "stale-unexplained:%s:%s" % (c["type"], "+".join(last))
